@@ -305,3 +305,10 @@ def c11_8(ctx, r):
     from .common import ROLE_SITES
 
     report_role(ctx, r, ROLE_SITES, {"mutate"}, "later submitter invocations either continue consistently or refuse to act")
+
+
+@rule(P, "C11.9", "L0", "an error raised while the cluster lock is held reaches the caller (a failed status update is never taken for done)", min_obligations=3)
+def c11_9(ctx, r):
+    from .c10 import _check_wrapper
+
+    _check_wrapper(ctx, r, ctx.fn("Cluster._do_action_under_lock_internal", "C11.9"), "C11.9")
